@@ -59,6 +59,16 @@ def fixed2OK (x : Rat) (field : Str) : Bool :=
 
 def blank (s : Str) : Bool := s.all (· = ' ')
 
+/-- The atom name in its four columns 13–16 by the wwPDB alignment rule the library documents: a name starts in
+    column 14 — except a four-character name, a name that is its own two-letter element symbol (FE, ZN, CA of calcium)
+    and a three-character name with a leading digit (1HB), which start in column 13. -/
+def nameField (name element : Str) : Str :=
+  match name with
+  | [c] => [' ', c, ' ', ' ']
+  | [c, d] => if name = element then [c, d, ' ', ' '] else [' ', c, d, ' ']
+  | [c, d, e] => if isDigitChar c then [c, d, e, ' '] else [' ', c, d, e]
+  | _ => name
+
 /-- names of the clauses of the column layout that `line` violates for `row` (empty = the line is right) -/
 def lineFailures (a : Atom) (line : Str) : List String :=
   let c (nm : String) (ok : Bool) : List String := if ok then [] else [nm]
@@ -67,6 +77,7 @@ def lineFailures (a : Atom) (line : Str) : List String :=
   c "serial" (cols line 7 11 = intStr a.serial) ++
   c "col12" (blank (rawCols line 12 12)) ++
   c "name" (cols line 13 16 = a.name) ++
+  c "nameAlign" (rawCols line 13 16 = nameField a.name a.element) ++
   c "altLoc" (cols line 17 17 = a.altLoc) ++
   c "resName" (cols line 18 20 = a.resName) ++
   c "col21" (blank (rawCols line 21 21)) ++
